@@ -336,6 +336,7 @@ pub fn run(ctx: &Ctx) -> Report {
      messages between every pair of frames, extra handshake keys); adversarial family: bounded-exhaustive enumeration of all message sequences up to length 2 (quick: + sampled length 3; thorough: all length 3 + sampled length 4) over 20 faults, \
      plus TCP/extension handshake variants; end-to-end `imdl torrent from-link` against a simulated UDP tracker + peers; non-trivial = more than one piece or any fault; distinct by script hash",
   );
+  report.rule.push_str("; ordinary messages up to 100 000 bytes and of other extensions (port, fast extension, v2 hash messages) between pieces; other capability bits in the handshake; a reactive peer that sends its extended handshake only after the client's; end to end: hybrid links (a v2 topic first), a tracker that misses the first datagram of each request, the announce sent by from-link judged like any other");
   report.correspondences.push("C11.fetch: result, returned dictionary and piece requests of the real peer client = Imdlv.Peer.fetch with the model's typed readers".into());
   let scripts: Vec<Script> = match super::replay_cases(ctx) {
     Some(rc) => rc.iter().filter_map(Script::from_json).collect(),
